@@ -34,12 +34,25 @@
                                  is open finding F-C14c — and no part of it standing
                                  at a parameter position of p is empty (F-C14e).
                                  EXACT: C14_found_exactly.
+   Configuration histories (Reload.v; the code with repairs F-C14i and F-C14j)
+     run Recheck ops init        the engine + proxy after the history ops: Load (flows:
+                                 initializeStreams; policies: UpdatePoliciesData, delayed or
+                                 immediate un-management) / Tick i (the i-th sleeping
+                                 un-management goroutine runs, ANY order) / Advance d (the
+                                 clock moves, the due ones run)
+     s_cur, s_px                 the request of the configuration in force; the proxy's
+                                 proc.manage_all and the keys of endpoints.map
+     managed_ok s                manage-all configured => proc.manage_all set; otherwise
+                                 every expression of the configuration in force is a key
+     proxy_managed p m u         acl is_managed over the proxy's CURRENT state (the keys
+                                 read by Reader.parse)
    The theorems of the first round (C14_cover_flows .. C14_no_bypass_policies, with
    stars_last, the config-wide kind_consistent and the broader url_ok) are kept
    unchanged; they are consequences (C14_old_conditions_imply_new). *)
 From Coq Require Import List ZArith Bool String.
 From Verif Require Import Lib.UrlTree Lib.Regex.
 From Verif Require Import C14.Reader C14.Model C14.Proofs C14.Cover C14.Bridge C14.Literal C14.Found C14.Syntax.
+From Verif Require Import C14.Reload C14.ReloadProofs C14.ReloadLeak.
 From Verif Require C03.Trie C03.Model C03.Spec C03.SpecLocal C03.Proofs C13.Model.
 Import ListNotations.
 Open Scope Z_scope.
@@ -575,3 +588,145 @@ Example C14_demo_found_exactly_hypotheses :
   /\ re_search (format (bs "GET") (bs "api.com/v1/*")) (bs "GET:::api.com/v2/y") = false
   /\ ends_wild (split_url (bs "h.com/*/y")) = false.
 Proof. vm_compute. repeat split; try reflexivity. discriminate. Qed.
+
+(* ================================================================
+   Configuration histories: loads, reloads, delayed un-management
+   ================================================================ *)
+
+(* ---- after ANY history of loads (flows or policies, delayed or immediate
+        un-management) and of un-management goroutines running in any order and
+        at any time, the proxy holds what the configuration in force registers:
+        proc.manage_all when it manages all, every one of its expressions
+        otherwise.  (The code with repairs F-C14i + F-C14j.) ---- *)
+Theorem C14_managed_after_reloads : forall ops, managed_ok (run Recheck ops init) = true.
+Proof. exact managed_after_reloads. Qed.
+Print Assumptions C14_managed_after_reloads.
+
+(* ---- composed with the coverage statements: after any configuration history,
+        a transaction the engine in force selects a flow for is managed by the
+        proxy's CURRENT state (same side conditions as C14_no_bypass_flows_exact) ---- *)
+Theorem C14_no_bypass_flows_after_reloads : forall ops fs x f,
+  s_cur (run Recheck ops init) = Some (flows_req fs) ->
+  C03.Model.load_ok fs = true ->
+  In f (C03.Model.get_flow (C03.Proofs.tree_of fs) x) ->
+  C03.SpecLocal.kc_at fs f (C03.Proofs.url_of x) = true ->
+  url_ok_exact (C03.Model.f_url f) (C03.Model.t_url x) = true ->
+  proxy_managed (s_px (run Recheck ops init)) (C03.Model.t_method x) (C03.Model.t_url x) = true.
+Proof. exact no_bypass_flows_after_reloads. Qed.
+Print Assumptions C14_no_bypass_flows_after_reloads.
+
+Theorem C14_no_bypass_policies_after_reloads : forall ops ds grem gdiag pt m u,
+  s_cur (run Recheck ops init) = Some (policy_req ds grem gdiag) ->
+  C13.Model.build ds = Some pt -> C13.Model.kind_consistentb ds = true ->
+  policy_selected pt m u ->
+  (forall d, In d ds -> C13.Model.d_method d = m ->
+             matches_kind (parse_pattern (split_url (C13.Model.d_url d))) (split_url u) = true ->
+             url_ok_exact (C13.Model.d_url d) u = true) ->
+  proxy_managed (s_px (run Recheck ops init)) m u = true.
+Proof. exact no_bypass_policies_after_reloads. Qed.
+Print Assumptions C14_no_bypass_policies_after_reloads.
+
+Theorem C14_globals_managed_after_reloads : forall ops ds grem gdiag m u,
+  s_cur (run Recheck ops init) = Some (policy_req ds grem gdiag) ->
+  policy_manage_all grem gdiag = true ->
+  proxy_managed (s_px (run Recheck ops init)) m u = true.
+Proof. exact globals_managed_after_reloads. Qed.
+Print Assumptions C14_globals_managed_after_reloads.
+
+(* ---- what the repair must NOT change: stale expressions still leave the map.
+        After any history every key of endpoints.map is registered by the
+        configuration in force or is awaited by a pending un-management ---- *)
+Theorem C14_stale_expressions_unmanaged : forall ops, no_leak (run Recheck ops init) = true.
+Proof. exact no_leak_after_reloads. Qed.
+Print Assumptions C14_stale_expressions_unmanaged.
+
+(* ---- the code before repair F-C14i: the expressions to un-manage are found
+        with lo.Difference over POINTERS to freshly built objects = all the
+        previous ones.  Load A; load A again; the delayed un-management runs:
+        nothing of A is managed any more. ---- *)
+Definition C14_managed_after_reloads_by_pointer_full : Prop :=
+  forall ops, managed_ok (run ByPointer ops init) = true.
+Theorem C14_managed_after_reloads_by_pointer_full_refuted : ~ C14_managed_after_reloads_by_pointer_full.
+Proof.
+  intro H.
+  specialize (H [Load Flows (flows_req [uf 0 "a/x"]); Load Flows (flows_req [uf 0 "a/x"]); Tick 0]).
+  vm_compute in H. discriminate.
+Qed.
+Print Assumptions C14_managed_after_reloads_by_pointer_full_refuted.
+
+(* ---- repair F-C14i alone (comparison by expression, no re-check when the
+        goroutine runs): A, B, A inside one TTL — the un-management computed by
+        the reload A->B runs after the reload B->A registered A's expressions
+        again (finding F-C14j, repaired) ---- *)
+Definition C14_managed_after_reloads_without_recheck_full : Prop :=
+  forall ops, managed_ok (run ByExpr ops init) = true.
+Theorem C14_managed_after_reloads_without_recheck_full_refuted :
+  ~ C14_managed_after_reloads_without_recheck_full.
+Proof.
+  intro H.
+  specialize (H [Load Flows (flows_req [uf 0 "a/x"]); Load Flows (flows_req [uf 0 "b/y"]);
+                 Load Flows (flows_req [uf 0 "a/x"]); Tick 0]).
+  vm_compute in H. discriminate.
+Qed.
+Print Assumptions C14_managed_after_reloads_without_recheck_full_refuted.
+
+(* what it does guarantee: histories in which every reload finds no
+   un-management pending (reloads further apart than staleVersionTTL) *)
+Theorem C14_managed_after_spaced_reloads_without_recheck : forall ops,
+  spaced ByExpr ops init = true -> managed_ok (run ByExpr ops init) = true.
+Proof. exact managed_after_spaced_reloads. Qed.
+Print Assumptions C14_managed_after_spaced_reloads_without_recheck.
+
+(* ---- non-vacuity: a history with reloads in quick succession, a manage-all
+        configuration coming and going, jobs running out of order; the
+        configuration in force is [demo]; its transactions are managed by the
+        proxy's state; the stale expressions are gone once the jobs have run ---- *)
+Definition demo_b : list C03.Model.flow := [ mf 0 "api.com/v1/*" []; mf 1 "b.org/y" ["GET"] ].
+Definition demo_history : list op :=
+  [ Load Flows (flows_req demo); Load Flows (flows_req demo_b);
+    Advance 10000000000; Load Flows (flows_req demo); Tick 0; Advance 25000000000;
+    Load Flows (flows_req demo_b); Load Flows (flows_req demo); Tick 1 ].
+
+Example C14_demo_history :
+  s_cur (run Recheck demo_history init) = Some (flows_req demo)
+  /\ List.length (s_pend (run Recheck demo_history init)) = 2%nat
+  /\ p_all (s_px (run Recheck demo_history init)) = false
+  /\ proxy_managed (s_px (run Recheck demo_history init)) (bs "POST") (bs "eu.api.com/v1/users/7") = true
+  /\ proxy_managed (s_px (run Recheck demo_history init)) (bs "GET") (bs "files.example.org/x") = true
+  /\ proxy_managed (s_px (run Recheck demo_history init)) (bs "GET") (bs "other.org/x") = false
+  /\ managed_ok (run ByPointer demo_history init) = false
+  /\ managed_ok (run ByExpr demo_history init) = false
+  /\ spaced ByExpr demo_history init = false.
+Proof. vm_compute. repeat split; reflexivity. Qed.
+
+(* policies: an enabled global remedy going and coming back inside one TTL; the
+   delayed unmanage_global of the first reload must not unset what the second
+   one set (immediate un-management in between) *)
+Definition g_on : list C13.Model.remedy :=
+  [{| C13.Model.r_name := 0; C13.Model.r_type := 0; C13.Model.r_enabled := true |}].
+Definition demo_policy_history : list op :=
+  [ Load Flows (policy_req [pd "GET" "a.com/x"] g_on []);
+    Load (Policies false) (policy_req [pd "GET" "a.com/x"; pd "POST" "b.org/*"] [] []);
+    Load (Policies true) (policy_req [pd "POST" "b.org/*"] g_on []);
+    Tick 0 ].
+Example C14_demo_policy_history :
+  s_cur (run Recheck demo_policy_history init) = Some (policy_req [pd "POST" "b.org/*"] g_on [])
+  /\ p_all (s_px (run Recheck demo_policy_history init)) = true
+  /\ s_pend (run Recheck demo_policy_history init) = []
+  /\ proxy_managed (s_px (run Recheck demo_policy_history init)) (bs "GET") (bs "any.where/at/all") = true
+  /\ p_all (s_px (run ByExpr demo_policy_history init)) = false
+  /\ managed_ok (run ByExpr demo_policy_history init) = false.
+Proof. vm_compute. repeat split; reflexivity. Qed.
+
+(* un-management is still effective: A, then B, TTL elapses: exactly B's
+   expressions are left; at TTL-1ns A's are still there (transactions in flight) *)
+Example C14_demo_unmanage_effective :
+  strs_same (p_map (s_px (run Recheck [Load Flows (flows_req demo); Load Flows (flows_req demo_b);
+                                      Advance ttl] init)))
+            (q_eps (flows_req demo_b)) = true
+  /\ strs_same (p_map (s_px (run Recheck [Load Flows (flows_req demo); Load Flows (flows_req demo_b);
+                                         Advance (ttl - 1)] init)))
+               (q_eps (flows_req demo) ++ q_eps (flows_req demo_b)) = true
+  /\ spaced ByExpr [Load Flows (flows_req demo); Advance ttl; Load Flows (flows_req demo_b); Tick 0;
+                    Load Flows (flows_req demo)] init = true.
+Proof. vm_compute. repeat split; reflexivity. Qed.
